@@ -54,8 +54,10 @@ def run(ctx):
     ctx.assumptions += [
         'programs inside the statement\'s precondition only (calls name defined functions, no more arguments than '
         'parameters, no name used both as function and variable)',
-        'uses are rendered as v = v "x" (scalar), v[length(v)] = 1 (array), length(v) (no evidence); other syntactic forms '
-        'of scalar/array evidence (for-in, delete, split, in, getline targets, native-function arguments) are not generated',
+        'a scalar use is rendered as v = v "x", sub(/$/, "x", v) or v = sprintf("%sx", v); an array use as '
+        'v[length(v)] = 1, optionally preceded by an `in` test, a delete or a for-in over v (the form is a function of the '
+        'statement\'s place); length(v) carries no evidence; split(), getline targets and native-function arguments are '
+        'not generated',
         'calls made inside functions are guarded by a depth limit of 2 in the generated text and in the run-time model',
         'error messages and positions are not compared here (C19 compares them across repeated parses)',
     ]
@@ -64,14 +66,17 @@ def run(ctx):
     mc = ctx.cfg('MC_Resolver', name='MC_Resolver_ex',
                  constants=consts(NG=1 if q else 2, MapOrder='"any"'))
     ctx.tlc('MC_Resolver', mc, timeout=1500, heap='8g')
+    if not q:   # two parameters, fewer arguments than parameters, both functions calling either
+        mc2 = ctx.cfg('MC_Resolver', name='MC_Resolver_mid', constants=consts(NP1=2, NP2=1, NG=1, MapOrder='"any"'))
+        ctx.tlc('MC_Resolver', mc2, timeout=3000, heap='10g')
     big = consts(NP1=2, NP2=2, NP3=1, NG=2, MaxMainCalls=2, AllowRev='TRUE', MinArgs=0)
     mcs = ctx.cfg('MC_Resolver', name='MC_Resolver_sim', constants=dict(big, MapOrder='"any"'))
-    ctx.tlc('MC_Resolver', mcs, simulate=(1500 if q else 40000), depth=400, workers=min(4, ctx.cores), timeout=1500)
+    ctx.tlc('MC_Resolver', mcs, simulate=(500 if q else 5000), depth=400, workers=min(4, ctx.cores), timeout=1500)
     # 2. spec -> code
     gen = ctx.cfg('Gen_Resolver', name='Gen_Resolver_ex', constants=consts())
     ctx.tlc('Gen_Resolver', gen, capture='cases.ndjson', timeout=1500, heap='8g')
     gsim = ctx.cfg('Gen_Resolver', name='Gen_Resolver_sim', constants=big)
-    ctx.tlc('Gen_Resolver', gsim, capture='cases.ndjson', simulate=(600 if q else 40000), depth=40,
+    ctx.tlc('Gen_Resolver', gsim, capture='cases.ndjson', simulate=(600 if q else 15000), depth=40,
             workers=min(4, ctx.cores), timeout=1500)
     if not q:
         mid = consts(NP1=2, NP2=1, NG=1, MinArgs=1)
@@ -80,7 +85,7 @@ def run(ctx):
     ctx.cov['exhaustive'] = True
     ctx.replay('cases.ndjson', label='gen-resolver', min_cases=1000, corrupt=corrupt)
     # 3. code -> spec
-    ntr = 250 if q else 4000
+    ntr = 150 if q else 1500
     ctx.harness(['C16', 'record', '-seed', str(ctx.seed), '-n', str(ntr), '-out', ctx.path('trace.ndjson')])
     rejects = ctx.validate_traces('Trace_Resolver', 'Trace_Resolver', 'trace.ndjson', label='trace-resolver',
                                   corrupt_event=corrupt_event, timeout=1500)
